@@ -1,0 +1,13 @@
+//go:build verif
+
+package textmatch
+
+// Verification hooks (build tag `verif`): thin, add-only wrappers. Not part of the API.
+
+import "regexp/syntax"
+
+// VerifCompileOptimized exposes compileOptimized; the result is a nil interface
+// when no specialised matcher applies.
+func VerifCompileOptimized(s string, re *syntax.Regexp) Pattern {
+	return compileOptimized(s, re)
+}
